@@ -26,6 +26,9 @@ pub enum Step {
     Burst { from: u8, n: u8 },
     /// (virtual) time passes while the application holds what it holds
     Wait { ms: u32 },
+    /// the application task / thread that holds a delivered request fails: the request object is
+    /// dropped by the unwinding
+    DropByPanic { sel: u16 },
 }
 
 #[derive(Clone, Debug, PartialEq, Eq, Hash, Serialize, Deserialize)]
@@ -55,12 +58,17 @@ pub struct WireTalk {
     pub n_req: u8,
     pub two_peers: bool,
     pub newest_first: bool,
+    /// the application bans the requesters (node id and IP) after the requests were delivered and
+    /// before it answers them
+    #[serde(default)]
+    pub ban_before_answer: bool,
 }
 
 async fn run_wire(wt: &WireTalk, rep: &mut CaseReport) -> Option<(String, String)> {
     use crate::engines::wire::{AppMode, Body, Know, Op, WireConfig, World};
     use crate::engines::wire_interp::act;
     use discv5::verif::Message;
+    reset_globals();
     let np = if wt.two_peers { 2 } else { 1 };
     let mut resp_mode = vec![AppMode::Immediate; 4];
     resp_mode[0] = AppMode::Manual;
@@ -110,6 +118,14 @@ async fn run_wire(wt: &WireTalk, rep: &mut CaseReport) -> Option<(String, String
         rep.nontrivial = true;
     }
     let log0 = w.log.len();
+    if wt.ban_before_answer {
+        let mut l = discv5::verif::PERMIT_BAN_LIST.write();
+        for (addr, _) in &held {
+            l.ban_nodes.insert(addr.node_id, None);
+            l.ban_ips.insert(addr.socket_addr.ip(), None);
+        }
+        rep.class("wire-companion/requesters-banned-before-the-answer");
+    }
     for (addr, req) in held {
         w.respond(0, addr, req, 1);
     }
@@ -136,6 +152,7 @@ async fn run_wire(wt: &WireTalk, rep: &mut CaseReport) -> Option<(String, String
             ));
         }
     }
+    *discv5::verif::PERMIT_BAN_LIST.write() = Default::default();
     deliver_all(&mut w).await;
     if let Some(p) = crate::runner::take_panic() {
         return Some((format!("panic-in-task/{}", p.split(':').take(2).collect::<Vec<_>>().join(":")), p));
@@ -299,12 +316,21 @@ async fn run(case: &Case, rep: &mut CaseReport) -> Option<(String, String)> {
                     }
                 }
             }
-            Step::Drop { sel } | Step::DropOnOtherThread { sel } => {
+            Step::Drop { sel } | Step::DropOnOtherThread { sel } | Step::DropByPanic { sel } => {
                 collect!();
                 if !held.is_empty() {
                     let t = held.remove((*sel as usize * held.len()) >> 16);
                     let key = fates.keys().find(|(a, i)| a.node_id == *t.node_id() && i == t.id()).cloned();
-                    if matches!(step, Step::DropOnOtherThread { .. }) {
+                    if matches!(step, Step::DropByPanic { .. }) {
+                        // resume_unwind unwinds like a panic (std::thread::panicking() is true while
+                        // the request is dropped) without going through the process-wide panic hook
+                        let h = std::thread::spawn(move || {
+                            let _held = t;
+                            std::panic::resume_unwind(Box::new("the application's protocol handler failed"));
+                        });
+                        let _ = h.join();
+                        rep.class("dropped-by-an-unwinding-application-thread");
+                    } else if matches!(step, Step::DropOnOtherThread { .. }) {
                         let h = std::thread::spawn(move || drop(t));
                         if h.join().is_err() {
                             return Some(("talk/drop-panicked".into(), "dropping a TalkRequest on another thread panicked".into()));
@@ -380,6 +406,7 @@ impl Property for C20 {
             5 => (any::<u16>(), payload()).prop_map(|(sel, payload)| Step::Respond { sel, payload }),
             4 => any::<u16>().prop_map(|sel| Step::Drop { sel }),
             1 => any::<u16>().prop_map(|sel| Step::DropOnOtherThread { sel }),
+            1 => any::<u16>().prop_map(|sel| Step::DropByPanic { sel }),
             1 => any::<bool>().prop_map(Step::SetDraining),
             1 => (0u8..4, prop_oneof![Just(5u8), Just(110u8)]).prop_map(|(from, n)| Step::Burst { from, n }),
             2 => prop_oneof![1u32..200, 200u32..3000, 3000u32..20000, Just(60_000u32)].prop_map(|ms| Step::Wait { ms }),
@@ -387,14 +414,14 @@ impl Property for C20 {
         let step_cases = (prop_oneof![5 => Just(true), 1 => Just(false)], proptest::collection::vec(step, 1..20), any::<bool>(), 0u8..16, 0u8..16, prop_oneof![3 => Just(false), 1 => Just(true)])
             .prop_map(|(register_events, steps, respond_after_shutdown, known, moved, dual)| Case { register_events, steps, respond_after_shutdown, known, moved, dual, wire: None });
         let svc = step_cases;
-        let companion = (prop_oneof![1 => 1u8..31, 3 => 31u8..=90], any::<bool>(), any::<bool>()).prop_map(|(n_req, two_peers, newest_first)| Case {
+        let companion = (prop_oneof![2 => 1u8..31, 3 => 31u8..=90], any::<bool>(), any::<bool>(), prop_oneof![2 => Just(false), 1 => Just(true)]).prop_map(|(n_req, two_peers, newest_first, ban_before_answer)| Case {
             register_events: true,
             steps: vec![],
             respond_after_shutdown: false,
             known: 0,
             moved: 0,
             dual: false,
-            wire: Some(WireTalk { n_req, two_peers, newest_first }),
+            wire: Some(WireTalk { n_req, two_peers, newest_first, ban_before_answer }),
         });
         prop_oneof![150 => svc, 1 => companion].boxed()
     }
@@ -413,7 +440,7 @@ impl Property for C20 {
         rep
     }
     fn rule() -> String {
-        "a real Discv5 service with a scripted handler; scripts of 1..19 steps: TALKREQs (ids of 2..8 bytes, 4 source nodes) (each source node known to the service as a routing-table member or not; its requests coming from the socket its record advertises or from another one; IPv4 or dual-stack service with records advertising both families) injected while an event stream is registered / not registered / not being read so that it fills up (bursts of 110), the application responding to, dropping, dropping on another thread, or holding the delivered request objects in any order, also across 1 ms .. 60 s of (virtual) time; finally shutdown (service exit, handler end closed) followed by respond / drop of everything still held. After every step: a request that was responded to has exactly one TALKRESP with that payload to its source node address, a dropped or undeliverable one exactly one empty TALKRESP, a held one none, and no TALKRESP exists for anything else; after shutdown respond returns ChannelClosed and drop does not panic. Non-trivial = >=2 requests with different fates at the same time, or a release after shutdown.".into()
+        "a real Discv5 service with a scripted handler; scripts of 1..19 steps: TALKREQs (ids of 2..8 bytes, 4 source nodes) (each source node known to the service as a routing-table member or not; its requests coming from the socket its record advertises or from another one; IPv4 or dual-stack service with records advertising both families) injected while an event stream is registered / not registered / not being read so that it fills up (bursts of 110), the application responding to, dropping, dropping on another thread, dropping through the unwinding of a failing thread, or holding the delivered request objects in any order, also across 1 ms .. 60 s of (virtual) time; finally shutdown (service exit, handler end closed) followed by respond / drop of everything still held. After every step: a request that was responded to has exactly one TALKRESP with that payload to its source node address, a dropped or undeliverable one exactly one empty TALKRESP, a held one none, and no TALKRESP exists for anything else; after shutdown respond returns ChannelClosed and drop does not panic. Non-trivial = >=2 requests with different fates at the same time, or a release after shutdown.".into()
     }
     fn assumptions() -> Vec<String> {
         vec!["request ids are unique per source within a script (the ledger is keyed by (node address, id))".into()]
